@@ -1,4 +1,4 @@
 From Coq Require Import Extraction ExtrOcamlBasic NArith.
 From DV Require Import Base.Outcome C06.Gen C06.Model.
 Extraction Language OCaml.
-Extraction "../build/ml/C06/model.ml" c06_show_label c06_show_cstr c06_show_name c06_render c06_rdname c06_owner c06_txt show_record read_record generic_ops read_generic_record.
+Extraction "../build/ml/C06/model.ml" c06_show_label c06_show_cstr c06_show_name c06_render c06_rdname c06_owner c06_txt show_record read_record generic_ops read_generic_record c06_rec.
